@@ -135,10 +135,35 @@ class C04(Cfg):
     technique = ("Lean 4 proofs about a model of the value path (serde_json string escaping, literal decoding, integer printing, "
                  "the SQL text as a token list with bound and spliced material) + correspondence run against the real parsers, "
                  "SQL generator and SQLite with boundary-heavy values in every position")
-    level_text = ""
-    level_note = ""
-    trusted_base = []
-    assumptions = []
+    level_text = (
+        "Theorems (Lean 4, no bound on string length, code point or integer size) about a model of the value path: "
+        "unescape(escape s)=s for every string of Unicode scalars (serde_json escaping as written into _json, read back by the client); "
+        "parse(print i)=i for every integer; an admitted parameter is stored and returned as itself; exact characterisation of the strings that survive "
+        "being typed as a JSON string literal (no backslash, no C0 control) and of the literals that mean what they spell (only the \\\" escape); "
+        "the equality filter matches the stored value (null parameter excepted) and nothing else; the SQL statement as a token list: for the intended behaviour "
+        "no text is written between quotes, every spliced numeral is digits/sign only, and the tokens, ?n numbering and binding order are those of the query's skeleton "
+        "(all literal/default values erased). Counter-examples (decide/simp-checked) for the code as it is: literal escapes not decoded, a String default spliced between quotes "
+        "into the filter SQL, null parameter never matched, a variable taking the slot of a literal with the same text. "
+        "The model is tied to the code on every run: the real MutationParser/QueryParser/DataModel/PreparedQueries/Query::read on SQLite (and GraphDatabaseService::mutate/query/update_data_model for a sample) and the compiled model "
+        "run the same op file; compared per value: accept/reject class, the _json text, the raw result text, the decoded value, sibling fields, a digest of all other rows, the rows matched by the equality filter, "
+        "and the SQL text of both statements byte for byte. Independent oracle on the implementation: returned value = intended value (JSON meaning of the literal), filter matches exactly the equal rows, "
+        "other rows/fields unchanged, one lexical SQL shape per case.")
+    level_note = (
+        "Proved about the model only; the Rust code is tied by the differential run, not verified. Floats and Json values are opaque to the model: their round trip, "
+        "and the filters/defaults that involve a float printed into the SQL text, are judged by the harness (exact f64 bit patterns, structural JSON equality) and not by a theorem. "
+        "Equality filters on Json fields have no defined meaning and are not checked. Aliases/identifiers: only a fixed alias is exercised (SQL keywords as identifiers belong to C14). "
+        "The full-text search term is bound (statement shape unchanged) but is itself an FTS5 query expression - not covered here. SQLite's JSON functions are trusted as observed (3.45.3). "
+        "The SQL token model covers scalar selections, one level of entity/array sub-selection and filters (no ordering, paging, aggregates, json selectors, search).")
+    trusted_base = [
+        "hand-written model lean/DiscretModel/Model/Value.lean, tied by the correspondence run (dv-query vs dmodel_query), incl. byte-identical SQL text for the covered query shapes",
+        "harness/query (drives the real parsers, SQL generator, rusqlite/SQLite 3.45.3 and, for a sample, the GraphDatabaseService API); its result reader uses serde_json for strings and Rust's f64 parser for numbers",
+        "SQLite: JSON text of strings and numbers is re-emitted as stored; text comparison is bytewise (observed, not proved)",
+    ]
+    assumptions = [
+        "a literal 'means' the JSON string it spells (the grammars' string rule is JSON's); raw control characters inside a literal stand for themselves",
+        "float equality is numeric; -0.0 and 0.0 are kept out of the same case",
+        "Json null and Json scalars are left to C14/C12 (a null Json value panics a reader thread: candidate #6)",
+    ]
 
     def streams(self, tier, seed, work, dv):
         n = 2000 if tier == "quick" else 40000
